@@ -20,6 +20,12 @@ round 4: stored state under re-initialising mutators (`mode_no_leak`, `mode_wf_a
          histories over ALL ordered pairs of mutators, constructor modes / variants and sampled
          triples, prediction correspondence, coverage); raising calls (`ncoherent_with_exceptions`,
          exact lru histories with raising calls through `xhist`).
+round 5: owned Cached objects (`ocoherent_of_wf`, `owner_key_sees_owned_mutator`, `owned_pairs_ok`
+         about the tables of the pairs (owner, owned object) composed in Lean from the two classes'
+         own tables; harness/c01_owned.py: every public mutator of owned data / plots called through
+         the owner — hit/miss vs the composed machine (`onhist`), recomputation oracle); the owner's
+         view of an owned object is derived from the owned class's source, so these mutators also
+         run through the stages of rounds 3/4 as dotted mutators (`rp_x.set_fixed_threshold`).
 """
 import contextlib
 import inspect
